@@ -335,3 +335,30 @@ def path_route_models():
         routes2 = tuple(sorted([r._replace(arg=q(r.arg), result=q(r.result), error=q(r.error)) for r in routes], key=mm_def_key))
         out.append((Model((Namespace('na', (File(None, ('nb',), routes2),)), nb)), ('path-routes', lab, 'types-imported')))
     return out
+
+
+def tree_across_namespaces_models():
+    """A struct with enumerated subtypes (open and closed) that is referred to from its own namespace and from an importing one -
+    as field, nullable field, list item, map value, union member and route argument / result - for both alphabetical orders of the
+    two namespaces (which of them a backend formats first)."""
+    from .model import (Model, Namespace, File, Alias, R, N, L, M, P, VOID, mkfield, mktag, mkstruct, mkunion, mkroute)
+    I32, STR = P('Int32', ()), P('String', ())
+    out = []
+    for home, far in (('na', 'nb'), ('nb', 'na')):
+        for closed in (False, True):
+            home_defs = [mkstruct('Root', fields=[mkfield('r', I32)], subtypes=(closed, (('leafa', R(None, 'LeafA')), ('leafb', R(None, 'LeafB'))))),
+                         mkstruct('LeafA', parent=R(None, 'Root'), fields=[mkfield('a', N(STR))]),
+                         mkstruct('LeafB', parent=R(None, 'Root'), fields=[mkfield('b', I32, 2)]),
+                         mkstruct('UsesHome', fields=[mkfield('t', R(None, 'Root')), mkfield('lt', L(R(None, 'Root'), None, None))]),
+                         mkunion('PickHome', tags=[mktag('ph'), mktag('pr', R(None, 'Root'))]),
+                         mkroute('rhome', 1, R(None, 'Root'), R(None, 'UsesHome'), VOID)]
+            far_defs = [mkstruct('UsesFar', fields=[mkfield('t', R(home, 'Root')), mkfield('nt', N(R(home, 'Root'))), mkfield('lt', L(R(home, 'Root'), None, None)),
+                                                      mkfield('mt', M(R(home, 'LeafA')))]),
+                        mkunion('PickFar', tags=[mktag('pf'), mktag('pr', R(home, 'Root')), mktag('pl', N(R(home, 'LeafB')))]),
+                        Alias('FarRoot', R(home, 'Root'), None, ()),
+                        mkroute('rfar', 1, R(home, 'Root'), R(None, 'UsesFar'), R(None, 'PickFar')),
+                        mkroute('rfar', 2, R(None, 'FarRoot'), R(home, 'LeafA'), VOID)]
+            nss = {home: Namespace(home, (File(None, (), tuple(sorted(home_defs, key=mm_def_key))),)),
+                   far: Namespace(far, (File(None, (home,), tuple(sorted(far_defs, key=mm_def_key))),))}
+            out.append((Model((nss['na'], nss['nb'])), ('tree-across-namespaces', 'closed' if closed else 'open', 'home=%s' % home)))
+    return out
